@@ -77,6 +77,22 @@ def parse_prob(text):
             lines.append(l)
     pos = 0
 
+    def parse_if(head):
+        """head: '<cond>:' ; consumes the branches up to (not including) the closing 'end'"""
+        nonlocal pos
+        if not head.endswith(":"):
+            raise Unsupported(head)
+        cond = _parse_cond(head[:-1])
+        pos += 1
+        then = block(("end",))
+        els = []
+        if pos < len(lines) and lines[pos].startswith("elif "):
+            els = [parse_if(lines[pos][5:])]
+        elif pos < len(lines) and lines[pos].startswith("else"):
+            pos += 1
+            els = block(("end",))
+        return ("if", cond, then, els)
+
     def block(stop):
         nonlocal pos
         out = []
@@ -85,19 +101,10 @@ def parse_prob(text):
             if l in stop or l.startswith("while ") or l.startswith("else") or l.startswith("elif"):
                 return out
             if l.startswith("if "):
-                if not l.endswith(":"):
-                    raise Unsupported(l)
-                cond = _parse_cond(l[3:-1])
-                pos += 1
-                then = block(("end",))
-                els = []
-                if pos < len(lines) and lines[pos].startswith("else"):
-                    pos += 1
-                    els = block(("end",))
+                out.append(parse_if(l[3:]))
                 if pos >= len(lines) or lines[pos] != "end":
-                    raise Unsupported("if without end / elif")
+                    raise Unsupported("if without end")
                 pos += 1
-                out.append(("if", cond, then, els))
                 continue
             if l.startswith("types"):
                 raise Unsupported("types block")
@@ -115,11 +122,14 @@ def parse_prob(text):
     init = block(())
     if pos >= len(lines) or not lines[pos].startswith("while"):
         raise Unsupported("no loop")
+    guard = None
     if lines[pos].replace(" ", "") != "whiletrue:":
-        raise Unsupported("loop guard")
+        if not lines[pos].endswith(":"):
+            raise Unsupported("loop guard")
+        guard = _parse_cond(lines[pos][len("while"):-1])
     pos += 1
     body = block(("end",))
-    return {"init": init, "body": body}
+    return {"init": init, "body": body, "guard": guard}
 
 
 # ------------------------------------------------------------------------------------------------
@@ -302,6 +312,16 @@ class Interp:
             raise Unsupported("functional argument is not a draw or a constant")
         raise Unsupported(str(rhs[0]))
 
+    def _holds(self, cond, env):
+        var, op, rhs = cond
+        if var not in env:
+            raise Unsupported("uninitialised " + var)
+        c = p_is_const(env[var])
+        r = eval_number(rhs)
+        if c is None or r[1] != 0:
+            raise Unsupported("condition on a non-finite value")
+        return (c == r[0]) if op == "==" else (c != r[0])
+
     def _exec(self, stmts, paths):
         for st in stmts:
             new = []
@@ -320,14 +340,7 @@ class Interp:
                 _, (var, op, rhs), then, els = st
                 yes, no = [], []
                 for w, env in paths:
-                    if var not in env:
-                        raise Unsupported("uninitialised " + var)
-                    c = p_is_const(env[var])
-                    r = eval_number(rhs)
-                    if c is None or r[1] != 0:
-                        raise Unsupported("condition on a non-finite value")
-                    holds = (c == r[0]) if op == "==" else (c != r[0])
-                    (yes if holds else no).append((w, env))
+                    (yes if self._holds((var, op, rhs), env) else no).append((w, env))
                 new = (self._exec(then, yes) if yes else []) + (self._exec(els, no) if no else [])
             paths = new
             if len(paths) > self.max_paths:
@@ -351,7 +364,14 @@ class Interp:
                     acc = p_add(acc, p_mul(p_const(w), p))
                 out[gi].append(self._expect(acc))
             if n < nmax:
-                paths = self._exec(self.prog["body"], paths)
+                guard = self.prog.get("guard")
+                if guard is None:
+                    paths = self._exec(self.prog["body"], paths)
+                else:               # the state is frozen once the loop guard is false
+                    run, frozen = [], []
+                    for w, env in paths:
+                        (run if self._holds(guard, env) else frozen).append((w, env))
+                    paths = (self._exec(self.prog["body"], run) if run else []) + frozen
         return out
 
     def _expect(self, poly):
@@ -534,6 +554,41 @@ def gen_program(R, shape):
         p = R.choice(["1/2", "1/3"])
         body = [f"b = Bernoulli({p})", "if b == 1:", f"    u = {_dist_txt(fam, ps)}", "end", "s = Sin(u)", "x = x + s"]
         return dict(text=_wrap(["x = 0", "b = 0", "u = 0"], body), goals=[[["x", 1]]], shape=shape, expect="value")
+    if shape.startswith("re_"):   # conditioned functional assignment whose target is assigned several times per iteration
+        fam, ps = _pick_dist(R, ["Normal", "Uniform", "Laplace", "Gamma"])
+        p = R.choice(["1/4", "1/2", "1/3", "3/4"])
+        f1 = R.choice(FUNCS[:2])
+        f2 = "Cos" if f1 == "Sin" else "Sin"
+        acc = f"x = x + {coef}s"
+        goals = [[["x", 1]], [["s", 1]], [["s", 2]]]
+        init = ["x = 0", "s = 0", "b = 0"]
+        head = [f"b = Bernoulli({p})", f"u = {_dist_txt(fam, ps)}"]
+        if shape == "re_poly":        # s = poly first, then s = F(u) under if
+            body = head + [R.choice(["s = u**2", "s = 2*u + 1", "s = 1", "s = s + 1"]), "if b == 1:", f"    s = {f1}(u)", "end", acc]
+        elif shape == "re_draw":      # s = fresh draw first
+            fam2, ps2 = _pick_dist(R, ["Normal", "Uniform"])
+            body = head + [f"s = {_dist_txt(fam2, ps2)}", "if b == 1:", f"    s = {f1}(u)", "end", acc]
+        elif shape == "re_func":      # s = another functional first
+            body = head + [f"s = {f2}(u)", "if b == 1:", f"    s = {f1}(u)", "end", acc]
+        elif shape == "re_after":     # assigned before and after the conditioned functional assignment
+            body = head + ["s = u", "if b == 1:", f"    s = {f1}(u)", "end", acc, R.choice(["s = s*s", "s = s + 2", "s = 3"])]
+        elif shape == "re_else":      # if / else, both branches functional or polynomial
+            body = head + ["s = u**2", "if b == 1:", f"    s = {f1}(u)", "else:", R.choice([f"    s = {f2}(u)", "    s = s + 1", "    y = s"]), "end", acc]
+            init.append("y = 0")
+        elif shape == "re_elif":      # three-way branch on a finite draw
+            head[0] = "b = DiscreteUniform(0, 2)"
+            body = head + ["s = 1 + u", "if b == 0:", f"    s = {f1}(u)", "elif b == 1:", f"    s = {f2}(u)", "else:", "    s = s*u", "end", acc]
+        elif shape == "re_nested":    # nested ifs
+            body = head + ["a = Bernoulli(1/2)", "s = u**2", "if a == 1:", "    s = s + 1", "    if b == 1:", f"        s = {f1}(u)", "    end", "end", acc]
+            init.append("a = 0")
+        elif shape == "re_guard":     # under a loop guard
+            body = head + ["s = u**2", "if b == 1:", f"    s = {f1}(u)", "end", acc, "g = Bernoulli(1/3)"]
+            init.append("g = 0")
+            text = "\n".join(init + ["while g == 0:"] + ["    " + l for l in body] + ["end"]) + "\n"
+            return dict(text=text, goals=goals, shape=shape, expect="value")
+        else:
+            raise ValueError(shape)
+        return dict(text=_wrap(init, body), goals=goals, shape=shape, expect="value")
     if shape == "mix":            # Sin/Cos together with Exp of the same draw (documented as rejected)
         fam, ps = _pick_dist(R, ["Normal", "Uniform"])
         f1 = R.choice(FUNCS[:2])
@@ -547,7 +602,8 @@ def _wrap(init, body):
 
 
 SHAPES = ["acc", "acc", "exp", "exp_missing", "ref", "later", "two", "cond", "condfunc", "const", "stale",
-          "rot", "finite", "mix", "dup", "init", "conddist"]
+          "rot", "finite", "mix", "dup", "init", "conddist",
+          "re_poly", "re_draw", "re_func", "re_after", "re_else", "re_elif", "re_nested", "re_guard"]
 
 
 def benchmark_goals(text):
